@@ -448,7 +448,11 @@ func (h *Hist) scan(faults map[int]bool, failDesc map[string]bool) (string, erro
 	mutated := []string{}
 	for i, n := range h.nodeL.nodes {
 		if !apiequality.Semantic.DeepEqual(n, snapNodes[i]) {
-			mutated = append(mutated, "node/"+snapNodes[i].Name)
+			what := "node/" + snapNodes[i].Name
+			if !apiequality.Semantic.DeepEqual(n.Spec.Taints, snapNodes[i].Spec.Taints) {
+				what += ":taints" // the next scan will classify this node by taints the API server never accepted (or already removed)
+			}
+			mutated = append(mutated, what)
 		}
 	}
 	for i, p := range h.podL.pods {
